@@ -119,7 +119,12 @@ void retired(int t, int id) {
 
 void do_region(int t, Accessor* acc, int steps, int64_t sleep_us, int depth) {
   steps = steps < 1 ? 1 : steps > 8 ? 8 : steps;
-  depth = depth < 1 ? 1 : depth > 2 ? 2 : depth;
+  // depth 1: plain region; 2: nested lock taken at entry, inner unlock after the
+  // first step; 3: nested lock taken in the MIDDLE of the region (after ticks of
+  // other threads may have happened) and released one step later
+  bool late_nested = depth == 3;
+  depth = depth < 1 ? 1 : depth > 2 ? (late_nested ? 1 : 2) : depth;
+  bool inner_open = false;
   if (sleep_us > 50000) sleep_us = 50000;
   if (S->nregions >= MAXREG) skip("too-many-regions");
   babylon::Epoch& e = S->gc->epoch();
@@ -132,7 +137,10 @@ void do_region(int t, Accessor* acc, int steps, int64_t sleep_us, int depth) {
   for (int i = 0; i < steps; i++) {
     if (sleep_us > 0) ::usleep((useconds_t)sleep_us); else yield_point();
     if (depth == 2 && i == 0) { if (acc) acc->unlock(); else e.unlock(); depth = 1; }  // inner unlock keeps the region open
+    if (late_nested && inner_open) { if (acc) acc->unlock(); else e.unlock(); inner_open = false; probe("late_nested_lock_closed"); }
+    else if (late_nested && i == (steps - 1) / 2 && i + 1 < steps) { if (acc) acc->lock(); else e.lock(); inner_open = true; }
   }
+  if (inner_open) { if (acc) acc->unlock(); else e.unlock(); inner_open = false; }
   S->regions[r].open = false;  // from here on the reader no longer relies on protection
   for (int d = 0; d < depth; d++) { if (acc) acc->unlock(); else e.unlock(); }
   S->in_region--;
@@ -234,7 +242,7 @@ void gen(Rng& r, Plan& p, const GenParams& gp) {
     int nops = (int)r.range(1, 3);
     for (int i = 0; i < nops; i++) {
       if (r.chance(1, 3)) add(t, K_PAUSE, r.range(0, 20), psleep[r.below(4)], 0);
-      add(t, K_REGION, r.range(1, 6), rsleep[r.below(6)], r.chance(1, 4) ? 2 : 1);
+      add(t, K_REGION, r.range(1, 6), rsleep[r.below(6)], r.chance(1, 3) ? (r.chance(1, 2) ? 3 : 2) : 1);
     }
   }
   for (int t = nread + 1; t <= nread + nret; t++) {
